@@ -2975,6 +2975,8 @@ CALSCALE:GREGORIAN\n";
 
 	/* tell the bufferer we want to write to WHITHER */
 	fdbang(whither);
+	/* a new document, forget about errors of earlier ones */
+	fdclearerr(whither);
 	/* definitely the head of the header */
 	fdwrite(hdr, strlenof(hdr));
 
@@ -3015,7 +3017,7 @@ CALSCALE:GREGORIAN\n";
 	return;
 }
 
-void
+int
 echs_icalify_fini(int whither)
 {
 	static const char ftr[] = "\
@@ -3027,7 +3029,8 @@ END:VCALENDAR\n";
 	fdwrite(ftr, strlenof(ftr));
 	/* that's the last thing in line, just send it off */
 	fdflush();
-	return;
+	/* and tell them if anything has been lost on the way */
+	return fderror(whither) ? -1 : 0;
 }
 
 /* evical.c ends here */
